@@ -201,4 +201,19 @@ def fneg64 (x : BitVec 64) : BitVec 64 := x ^^^ sign64
 def fabs32 (x : BitVec 32) : BitVec 32 := ~~~sign32 &&& x
 def fabs64 (x : BitVec 64) : BitVec 64 := ~~~sign64 &&& x
 
+-- ---------------------------------------------------------------------------------------------- memory
+/-- memory behind a pointer: 32-bit words indexed from the pointer (`float*`: element e = word e; `double*`: element e =
+    words 2e, 2e+1, read with `lane64`).  `loadw m off` = the register loaded from word offset `off` (any width: the
+    consumer uses the lanes its width has). -/
+def loadw (m : Reg) (off : Nat) : Reg := fun k => m (off + k)
+/-- `_mm_load_ss` / `_mm_load_sd`: one element loaded into the low lane(s), the rest of the register zero -/
+def loadw_ss (m : Reg) (off : Nat) : Reg := fun k => if k = 0 then m off else 0
+def loadw_sd (m : Reg) (off : Nat) : Reg := fun k => if k < 2 then m (off + k) else 0
+/-- store of the `n` low lanes of `r` at word offset `off`; every other word keeps its value (the footprint of the store) -/
+def storew (m : Reg) (off n : Nat) (r : Reg) : Reg := fun w => if off ≤ w ∧ w < off + n then r (w - off) else m w
+
+/-- uniform calling convention of the generated definitions for the `gen` driver command: float operations, register
+    arguments by position, scalar arguments by position (32-bit ones in the low half) -> result registers, result scalars -/
+abbrev GenFn := FOps → (Nat → Reg) → (Nat → BitVec 64) → List Reg × List (BitVec 64)
+
 end Fastor.Simd
